@@ -25,6 +25,10 @@ func Compile(root *Module) error {
 type compiler struct {
 	root *Module
 	pool map[HasDefinitions]struct{}
+
+	// typedefs whose type is being resolved, to detect "typedef a { type a; }"
+	// and longer cycles instead of recursing until the stack is gone
+	resolving map[*Typedef]bool
 }
 
 func (c *compiler) module(y *Module) error {
@@ -399,7 +403,16 @@ func (c *compiler) findTypedef(y *Type, parent Definition, qualifiedIdent string
 	}
 
 	// this will recurse if typedef references another typedef
-	if err := c.compile(found); err != nil {
+	if c.resolving[found] {
+		return nil, errors.New(SchemaPath(parent) + " - typedef " + y.ident + " is defined in terms of itself")
+	}
+	if c.resolving == nil {
+		c.resolving = make(map[*Typedef]bool)
+	}
+	c.resolving[found] = true
+	err := c.compile(found)
+	delete(c.resolving, found)
+	if err != nil {
 		return nil, err
 	}
 
